@@ -12,6 +12,7 @@ small description (text forms: lean/OFCore/OFCore/Drv/Heap.lean):
                                                                   nb<role> = group.nb_persons(role=ROLE)
                                                                   hr<g>_<role> = person.has_role(ROLE of group g)
                                                                   pa = parameters(period).p0   (three-argument formula)
+                                                                  nt<k> = group.value_nth_person(k, group.members(dep, p), default=0)
                                                              pt:  s = the requested period, l = period.last_month
     every group entity has the roles r0 (sub-roles r0s0, r0s1), r1, r2 (max 1); <role> is the set of flattened
     roles satisfying it: 0_1 (r0) | 0 (r0s0) | 1 (r0s1) | 2 (r1) | 3 (r2)
@@ -94,6 +95,8 @@ def parse_via(v):
         return v
     if v.startswith("mr") or v.startswith("nb"):
         return (v[:2], parse_role(v[2:]))
+    if v.startswith("nt"):
+        return ("nt", _nat(v[2:]))
     if v.startswith("hr"):
         g, _, r = v[2:].partition("_")
         return ("hr", _nat(g), parse_role(r))
@@ -224,7 +227,7 @@ def check_run(sysd, spec, events) -> None:
             if isinstance(via, tuple):
                 if via[0] == "hr" and (via[1] not in ks or e != 0):
                     raise Malformed("has_role")
-                if via[0] in ("mr", "nb") and e == 0:
+                if via[0] in ("mr", "nb", "nt") and e == 0:
                     raise Malformed("role of a person variable")
     live = 2
     for side, ev in events:
@@ -265,6 +268,8 @@ def _term_value(population, period, term, names, dep_entity_keys, ents, paramete
         return population.sum(population.members(names[dep], p), role=role_object(population.entity, via[1]))
     if via[0] == "nb":
         return population.nb_persons(role=role_object(population.entity, via[1]))
+    if via[0] == "nt":
+        return population.value_nth_person(via[1], population.members(names[dep], p), default=0)
     return population.has_role(role_object(ents[via[1]], via[2])) * 1.0
 
 
@@ -443,7 +448,7 @@ def apply_op(sim, names, vtypes, op, style=0, tbs=None):
     `style` varies the spelling of the arguments (Period object / period text, list / ndarray / dtype)."""
     import numpy
 
-    name = names[op[1]] if op[0] in "sdkagh" and op[1] < len(names) else "v_unknown"
+    name = names[op[1]] if op[0] in "sdkagh" and op[1] < len(names) else f"v{op[1]}"
     vt = vtypes[op[1]] if op[0] in "sdkagh" and op[1] < len(vtypes) else "f"
     text = style % 2 == 1
     try:
@@ -460,7 +465,7 @@ def apply_op(sim, names, vtypes, op, style=0, tbs=None):
         if op[0] == "k":
             return show_vec(sim.calculate(name, real_period(op[2], text)), vt)
         if op[0] == "a":
-            return show_vec(sim.calculate_add(name, real_period(op[2], text)), "f" if vt == "e" else vt)
+            return show_vec(sim.calculate_add(name, real_period(op[2], text)), "f" if vt in "eb" else vt)
         if op[0] == "t":
             sim.trace = op[1]
             return "ok"
@@ -484,7 +489,7 @@ def apply_set_from(sim, src, names, vtypes, ev):
     if a is None:
         return "none"
     try:
-        sim.set_input(names[v] if v < len(names) else "v_unknown", real_period(p), a)
+        sim.set_input(names[v] if v < len(names) else f"v{v}", real_period(p), a)
         return "ok"
     except Exception:      # noqa: BLE001
         return "ERR"
@@ -548,7 +553,6 @@ def observe(sim, vtypes) -> str:
         if members is not None:
             roles, counts = role_reads(pop)
             rtxt = (":r" + ".".join(map(str, roles)) + ":p" + ".".join(str(int(x)) for x in pop.members_position)
-                    + ":m" + ".".join(str(int(x)) for x in pop.ordered_members_map)
                     + ":c" + "/".join(",".join(c) for c in counts))
         pops.append(f"e{pop_index(key)}:{b(pop.simulation is sim)}{b(members is None or members is sim.persons)}:n{pop.count}:i"
                     + ".".join(str(i) for i in pop.ids) + ":"
